@@ -22,7 +22,8 @@ RULE = ("Hypothesis draws a base identifier (arbitrary Unicode without str.isspa
         "parent directory outside the store root is byte-for-byte unchanged and every file inside "
         "the root sits at a hash-derived location (or in a tmp directory). Non-trivial = the history "
         "touches >=2 related identifiers with >=1 mutating call; distinct key = (relation kinds, "
-        "identifier shape classes, op sequence).")
+        "identifier shape classes, op sequence)."
+        ' One case in eight uses two pids that are the paths of two existing files with equal content; after a successful store / tag / store_metadata the reference / document must exist at shard(H(pid)) [/H(pid+format)] computed from the identifier STRING.')
 ASSUMPTIONS = ["identifiers contain no whitespace (str.isspace) and no lone surrogates, as the API requires",
                "single thread"]
 
